@@ -15,12 +15,12 @@ impl<'a> CodePointInversionList<'a> {
 
     #[verifier::external_body]
     pub fn all() -> (r: CodePointInversionList<'static>)
-        ensures forall|c: char| r.has(c),
+        ensures forall|c: char| #[trigger] r.has(c),
     { unimplemented!() }
 
     #[verifier::external_body]
     pub fn clone(&self) -> (r: CodePointInversionList<'a>)
-        ensures forall|c: char| r.has(c) == self.has(c),
+        ensures forall|c: char| #[trigger] r.has(c) == self.has(c),
     { unimplemented!() }
 }
 
@@ -32,46 +32,46 @@ impl CodePointInversionListBuilder {
 
     #[verifier::external_body]
     pub fn new() -> (r: CodePointInversionListBuilder)
-        ensures forall|c: char| !r.has(c),
+        ensures forall|c: char| !#[trigger] r.has(c),
     { unimplemented!() }
 
     #[verifier::external_body]
     pub fn add_char(&mut self, c: char)
-        ensures forall|x: char| final(self).has(x) == (old(self).has(x) || x == c),
+        ensures forall|x: char| #[trigger] final(self).has(x) == (old(self).has(x) || x == c),
     { unimplemented!() }
 
     #[verifier::external_body]
     pub fn remove_char(&mut self, c: char)
-        ensures forall|x: char| final(self).has(x) == (old(self).has(x) && x != c),
+        ensures forall|x: char| #[trigger] final(self).has(x) == (old(self).has(x) && x != c),
     { unimplemented!() }
 
     #[verifier::external_body]
     pub fn add_range(&mut self, r: &core::ops::RangeInclusive<char>)
-        ensures forall|x: char| final(self).has(x) == (old(self).has(x) || (r@.start <= x && x <= r@.end)),
+        ensures forall|x: char| #[trigger] final(self).has(x) == (old(self).has(x) || (r@.start <= x && x <= r@.end)),
     { unimplemented!() }
 
     #[verifier::external_body]
     pub fn add_range32(&mut self, r: &core::ops::RangeInclusive<u32>)
-        ensures forall|x: char| final(self).has(x) == (old(self).has(x) || (r@.start <= x as u32 && x as u32 <= r@.end)),
+        ensures forall|x: char| #[trigger] final(self).has(x) == (old(self).has(x) || (r@.start <= x as u32 && x as u32 <= r@.end)),
     { unimplemented!() }
 
     #[verifier::external_body]
     pub fn add_set(&mut self, s: &CodePointInversionList)
-        ensures forall|x: char| final(self).has(x) == (old(self).has(x) || s.has(x)),
+        ensures forall|x: char| #[trigger] final(self).has(x) == (old(self).has(x) || s.has(x)),
     { unimplemented!() }
 
     #[verifier::external_body]
     pub fn remove_set(&mut self, s: &CodePointInversionList)
-        ensures forall|x: char| final(self).has(x) == (old(self).has(x) && !s.has(x)),
+        ensures forall|x: char| #[trigger] final(self).has(x) == (old(self).has(x) && !s.has(x)),
     { unimplemented!() }
 
     #[verifier::external_body]
     pub fn complement(&mut self)
-        ensures forall|x: char| final(self).has(x) == !old(self).has(x),
+        ensures forall|x: char| #[trigger] final(self).has(x) == !old(self).has(x),
     { unimplemented!() }
 
     #[verifier::external_body]
     pub fn build(self) -> (r: CodePointInversionList<'static>)
-        ensures forall|x: char| r.has(x) == self.has(x),
+        ensures forall|x: char| #[trigger] r.has(x) == self.has(x),
     { unimplemented!() }
 }
